@@ -251,7 +251,7 @@ func runC11(c *RuleCtx) {
 				extNil := AtomNil("extensions == nil", func(v *V) bool {
 					return v.IsCall("pb.(*ControlMessage).GetExtensions") || v.IsField("pb.ControlMessage.Extensions")
 				})
-				check("pb.ControlMessage.Extensions", edgeCut(g.AtomEdges(ctlNil, true), g.AtomEdges(extNil, true)), storeOf("pb.ControlMessage.Extensions"))
+				check("pb.ControlMessage.Extensions", g.CutAny(AtomWant{ctlNil, true}, AtomWant{extNil, true}), storeOf("pb.ControlMessage.Extensions"))
 				for _, f := range []string{"Partial", "TestExtension"} {
 					isN := AtomNil("rpc."+f+" == nil", func(v *V) bool { return v.IsField("pb.RPC."+f) && !onFrag(v.Node.(ast.Expr)) })
 					check("pb.RPC."+f, edgeCut(g.AtomEdges(isN, true)), storeOf("pb.RPC."+f))
@@ -297,7 +297,7 @@ func runC11(c *RuleCtx) {
 					return false
 				}
 				sz := func(y *V) bool { return y.IsCall("pb.(*RPC).Size") || y.IsCall("(*RPC).Size") }
-				lim := func(y *V) bool { return y.Kind == "var" && y.Name == "limit" }
+				lim := isParam(lit, 0)
 				return (sz(x.Args[0]) && lim(x.Args[1])) || (sz(x.Args[1]) && lim(x.Args[0]))
 			})
 		}
@@ -483,19 +483,57 @@ func runC11(c *RuleCtx) {
 			}
 			c.Check(honoured, "R11.5", split.Name, "consumer's stop request honoured", y.Call, "returns when yield reports false", "iteration continues after the consumer stopped")
 		}
-		// the final remainder is yielded
-		lastNonEmpty := false
-		if n := len(lit.Body.List); n > 0 {
-			if is, ok := lit.Body.List[n-1].(*ast.IfStmt); ok {
-				cv := p.R(lit).Val(is.Cond)
-				if cv.Kind == "op" && cv.Name == ">" && (cv.Args[0].IsCall("pb.(*RPC).Size") || cv.Args[0].IsCall("(*RPC).Size")) && isZero(cv.Args[1]) {
-					ast.Inspect(is.Body, func(x ast.Node) bool {
-						if ce, ok := x.(*ast.CallExpr); ok && p.CalleeName(lit.Info(), ce) == "var:yield" {
-							lastNonEmpty = true
-						}
-						return true
-					})
+		// the final remainder is yielded (form-independent): after every growth of the fragment, every path to a
+		// normal exit passes a yield unless it refutes `Size() > 0`; and the last yield is only reached with Size() > 0
+		isFragSize := func(v *V) bool { return v.IsCall("pb.(*RPC).Size") || v.IsCall("(*RPC).Size") }
+		sizePos := AtomCmp("fragment.Size() > 0", isFragSize, ">", isZero)
+		lastNonEmpty := len(grows) > 0 && len(yields) > 0
+		cutEmpty := g.CutAny(AtomWant{sizePos, false})
+		hasYield := func(n ast.Node) bool {
+			for _, y := range yields {
+				if contains(n, y.Call) {
+					return true
 				}
+			}
+			return false
+		}
+		for _, gx := range grows {
+			gp, ok := g.Locate(gx.node)
+			if !ok {
+				lastNonEmpty = false
+				continue
+			}
+			if okp, _ := g.MustPass(gp.After(), PassOpts{Cut: cutEmpty}, hasYield); !okp {
+				lastNonEmpty = false
+			}
+		}
+		if len(yields) > 0 {
+			last := yields[0]
+			for _, y := range yields {
+				if y.Call.Pos() > last.Call.Pos() {
+					last = y
+				}
+			}
+			guarded, _ := p.DomAny(lit, last.Call, AtomWant{sizePos, true})
+			if !guarded {
+				// `if Size() > 0 && !yield(x)`: the call is evaluated only behind its left conjuncts
+				for x := p.parents[ast.Node(last.Call)]; x != nil; x = p.parents[x] {
+					be, ok := x.(*ast.BinaryExpr)
+					if !ok {
+						if _, isExpr := x.(ast.Expr); isExpr {
+							continue
+						}
+						break
+					}
+					if be.Op.String() == "&&" && within(last.Call, be.Y) {
+						if okm, sense := matchN(g, sizePos, be.X); okm && sense {
+							guarded = true
+						}
+					}
+				}
+			}
+			if !guarded {
+				lastNonEmpty = false
 			}
 		}
 		c.Check(lastNonEmpty, "R11.5", split.Name, "non-empty remainder yielded at the end", split.Decl, "final `if Size() > 0 { yield }`", "the last fragment is not yielded (its contents are lost) or an empty RPC can be yielded")
@@ -514,7 +552,7 @@ func runC11(c *RuleCtx) {
 				if rs, ok := unparen(as.Rhs[0]).(*ast.StarExpr); ok {
 					lt := f.Info().TypeOf(st.X)
 					if lt != nil && strings.HasSuffix(lt.String(), ".RPC") && !strings.Contains(lt.String(), "/pb.") {
-						if id, ok := unparen(rs.X).(*ast.Ident); ok && id.Name == "rpc" {
+						if id, ok := unparen(rs.X).(*ast.Ident); ok && f.Info().Uses[id] != nil && f.Info().Uses[id] == paramObj(f, 0) {
 							whole = true
 						}
 					}
@@ -559,7 +597,7 @@ func runC11(c *RuleCtx) {
 			arg := p.R(f).Val(cs.Call.Args[0])
 			inSplit := len(p.EnclosingLoops(cs.Call)) > 0
 			if inSplit {
-				over := AtomCmp("fragment.Size() > maxMessageSize", func(v *V) bool { return isSize(v) && len(v.Args) == 1 && v.Args[0].Name != "out" }, ">", maxF)
+				over := AtomCmp("fragment.Size() > maxMessageSize", func(v *V) bool { return isSize(v) && len(v.Args) == 1 && !(v.Args[0].Kind == "var" && v.Args[0].Obj == paramObj(f, 1)) }, ">", maxF)
 				ok, why := p.DomAny(f, cs.Call, AtomWant{over, false})
 				c.Check(ok, "R11.3", f.Name, "fragment sent only if not over the limit", cs.Call, why, "an oversized fragment can be queued: "+why)
 				for _, e := range g.AtomEdges(over, true) {
@@ -576,7 +614,7 @@ func runC11(c *RuleCtx) {
 				}
 				_ = arg
 			} else {
-				fits := AtomCmp("out.Size() < maxMessageSize", func(v *V) bool { return isSize(v) && len(v.Args) == 1 && v.Args[0].Name == "out" }, "<", maxF)
+				fits := AtomCmp("out.Size() < maxMessageSize", func(v *V) bool { return isSize(v) && len(v.Args) == 1 && v.Args[0].Kind == "var" && v.Args[0].Obj == paramObj(f, 1) }, "<", maxF)
 				ok, why := p.DomAny(f, cs.Call, AtomWant{fits, true})
 				c.Check(ok, "R11.3", f.Name, "unsplit send only below the limit", cs.Call, why, "an RPC can be queued whole without `Size() < maxMessageSize`: "+why)
 			}
